@@ -61,7 +61,7 @@ def relate_lines(out):
     return [(t[1], t[2], t[3]) for t in tlc_tuples(out, "RELATE")]
 
 
-def validate_trace(res, spec, tr, classify, relation_prefix="relation:", expect_relations=False):
+def validate_trace(res, spec, tr, classify, relation_prefix="relation:", expect_relations=False, relation_key=None):
     """Run trace specification `spec` over trace file `tr`; every line is judged against Denote
     (JUDGE) and the relational laws are evaluated between lines (RELATE)."""
     r = tlc(spec, env={"TRACE": tr}, workers=1, timeout=3000, tag="tr_" + res.prop + spec, heap="6g")
@@ -96,19 +96,20 @@ def validate_trace(res, spec, tr, classify, relation_prefix="relation:", expect_
         if verdict != "ok":
             line = json.loads(lines[i - 1])
             grp = [json.loads(x) for x in lines if x.strip() and json.loads(x).get("grp") == line.get("grp")]
-            res.violation(relation_prefix + name, {"group": grp, "at_line": i, "relation": name,
+            key = relation_key(name, grp) if relation_key else relation_prefix + name
+            res.violation(key, {"group": grp, "at_line": i, "relation": name,
                                                     "rendered": [gv(["render"], input=json.dumps(g))[:3000] for g in grp[:4]]})
     return n, kinds
 
 
-def record_and_judge(res, tier, n, cfgs, classify, spec="TraceEval", recorder="record-eval", expect_relations=False):
+def record_and_judge(res, tier, n, cfgs, classify, spec="TraceEval", recorder="record-eval", expect_relations=False, relation_key=None):
     """impl -> spec: record n random evaluations per generator configuration and validate the
     trace against the trace specification.  classify(verdict, payloads, line) -> key or None."""
     total = 0
     for ci, cfg in enumerate(cfgs):
         tr = os.path.join(WORK, "trace_%s_%s_%s.ndjson" % (res.prop, spec, cfg))
         gv([recorder, "--seed", seed() * 7919 + ci, "--n", n, "--cfg", cfg, "--out", tr])
-        cnt, kinds = validate_trace(res, spec, tr, classify, expect_relations=expect_relations)
+        cnt, kinds = validate_trace(res, spec, tr, classify, expect_relations=expect_relations, relation_key=relation_key)
         res.cov.setdefault("observed_kinds", {})[spec + ":" + cfg] = kinds
         total += cnt
         os.remove(tr)
